@@ -203,6 +203,21 @@ Example c15_nonvacuous :
   addr_of V4 1 = addr_of V4 65537 /\ addr_of V4 1 <> addr_of V4 65536.
 Proof. vm_compute. repeat split; discriminate. Qed.
 
+(* Streams accepted from one listener share its port as their local port: the
+   tables hold that port several times.  After the listener and one of two
+   accepted streams are gone, the port is still in use and the wrapping cursor
+   skips it; once the last one is closed it is handed out again. *)
+Definition h_shared := [TcpBind 0; Accepted 50000 1 50001; Accepted 50000 1 50002; TcpDrop 50000;
+                        CloseHalf 50000 1 50001; CloseHalf 50000 1 50001;
+                        UdpBind 0; UdpBind 0; UdpBind 0;
+                        CloseHalf 50000 1 50002; CloseHalf 50000 1 50002; UdpBind 0].
+Example c15_shared_listener_port :
+  snd (run (init 50000 50002) h_shared) =
+    [RPort 50000; RUnit; RUnit; RUnit; RUnit; RUnit;
+     RPort 50001; RPort 50002; RExhausted; RUnit; RUnit; RPort 50000] /\
+  tcp_assigned (fst (run (init 50000 50002) (firstn 6 h_shared))) 50000 = true.
+Proof. vm_compute. split; reflexivity. Qed.
+
 Check assign_sound : forall h p h', lo h <= cursor h <= hi h -> assign h = (Some p, h') ->
   lo h <= p <= hi h /\ udp_assigned h p = false /\ tcp_assigned h p = false /\
   udp h' = udp h /\ tcp h' = tcp h /\ streams h' = streams h /\ lo h' <= cursor h' <= hi h'.
@@ -220,3 +235,4 @@ Print Assumptions dns_reverse.
 Print Assumptions dns_lookup_many_filter.
 Print Assumptions c15_consts.
 Print Assumptions c15_nonvacuous.
+Print Assumptions c15_shared_listener_port.
